@@ -14,7 +14,7 @@
    SetSpliceCountdown, SetTransportPrivateData, SetAdaptationFieldExtension, Packet.SetAdaptationField) are
    covered by step_refines and therefore by the history theorem; nothing is _partial there. *)
 From Gots Require Import Base.Prelude Model.Pcr Model.AF Model.AFfn Spec.AFSpec
-  Proofs.AFLists Proofs.PcrBytes Proofs.AFHistory Proofs.AFGetters Proofs.AFExamples Proofs.AFTotal.
+  Proofs.AFLists Proofs.PcrBytes Proofs.AFHistory Proofs.AFGetters Proofs.AFExamples Proofs.AFTotal Proofs.AFLastSet.
 
 (* one call: Ok => the bytes are the serialisation of the updated logical value (same header, same payload,
    same adaptation_field_length); Err => the operation cannot be honoured (and the packet is untouched, see
@@ -91,6 +91,27 @@ Theorem C03_ext_readback_partial : forall p l hdr pay d p', repr p l hdr pay -> 
   AF.step p (AF.OSetExt d) = Ok p' -> AF.AdaptationFieldExtension p' = Ok (len d :: d).
 Proof. exact ext_readback. Qed.
 Print Assumptions C03_ext_readback_partial.
+
+(* "the last value set": after any further calls that do not address the field (touches k o = false: neither its
+   presence toggle, nor its value setter, nor a whole-field copy) the getters of both APIs still return it *)
+Theorem C03_pcr_last_set : forall p l hdr pay h1 v h2, repr p l hdr pay -> Forall op_ok (h1 ++ AF.OSetPCR v :: h2) ->
+  Forall (fun o => touches 0 o = false) h2 -> AF.HasPCR (AF.run p h1) = Ok true ->
+  AF.PCR (AF.run p (h1 ++ AF.OSetPCR v :: h2)) = Ok v /\ AFfn.PCR (AF.run p (h1 ++ AF.OSetPCR v :: h2)) = Ok (pcr_enc v).
+Proof. exact pcr_last_set. Qed.
+Print Assumptions C03_pcr_last_set.
+Theorem C03_splice_last_set : forall p l hdr pay h1 v h2, repr p l hdr pay -> Forall op_ok (h1 ++ AF.OSetSplice v :: h2) ->
+  Forall (fun o => touches 2 o = false) h2 -> AF.HasSplicingPoint (AF.run p h1) = Ok true ->
+  AF.SpliceCountdown (AF.run p (h1 ++ AF.OSetSplice v :: h2)) = Ok (AF.int8 v) /\
+  AFfn.SpliceCountdown (AF.run p (h1 ++ AF.OSetSplice v :: h2)) = Ok v.
+Proof. exact splice_last_set. Qed.
+Print Assumptions C03_splice_last_set.
+Theorem C03_tpd_last_set_partial : forall p l hdr pay h1 d h2 p2, repr p l hdr pay -> Forall op_ok (h1 ++ AF.OSetTPD d :: h2) ->
+  Forall (fun o => touches 3 o = false) h2 -> AF.step (AF.run p h1) (AF.OSetTPD d) = Ok p2 ->
+  AF.TransportPrivateData (AF.run p (h1 ++ AF.OSetTPD d :: h2)) = Ok (len d :: d) /\
+  AFfn.TransportPrivateData (AF.run p (h1 ++ AF.OSetTPD d :: h2)) = Ok d /\
+  AFfn.EncoderBoundaryPoint (AF.run p (h1 ++ AF.OSetTPD d :: h2)) = Ok d.
+Proof. exact tpd_last_set. Qed.
+Print Assumptions C03_tpd_last_set_partial.
 
 (* SetPCR/SetOPCR write the ISO layout of the value (33-bit base, 6 reserved bits set, 9-bit extension) *)
 Theorem C03_pcr_layout : forall v, v < PcrMax -> Pcr.pcr6 v = pcr_enc v.
